@@ -102,6 +102,13 @@ func c08Exec(format byte, in []byte) c08Result {
 			return
 		}
 		classes = append(classes, name+"="+classify(err))
+		if err == nil && !has {
+			// NoValidate variants: the geometry need not be valid, but it must still re-encode without
+			// panicking (outside the measured region: the allocation bound is about decoding)
+			if b := reencode(g); b != "" && res.Bad == "" {
+				res.Bad = b
+			}
+		}
 		if err == nil && has {
 			if verr := g.Validate(); verr != nil && res.Bad == "" {
 				res.Bad = fmt.Sprintf("%s returned an invalid geometry without NoValidate: %v", name, verr)
@@ -122,9 +129,6 @@ func c08Exec(format byte, in []byte) c08Result {
 		run("UnmarshalWKB", func() (geom.Geometry, bool, error) { g, err := geom.UnmarshalWKB(cp()); return g, true, err })
 		run("UnmarshalWKB(NoValidate)", func() (geom.Geometry, bool, error) {
 			g, err := geom.UnmarshalWKB(cp(), geom.NoValidate{})
-			if err == nil {
-				reencode(g)
-			}
 			return g, false, err
 		})
 		run("Geometry.Scan", func() (geom.Geometry, bool, error) { var g geom.Geometry; err := g.Scan(cp()); return g, true, err })
@@ -172,9 +176,6 @@ func c08Exec(format byte, in []byte) c08Result {
 		run("UnmarshalTWKB", func() (geom.Geometry, bool, error) { g, err := geom.UnmarshalTWKB(cp()); return g, true, err })
 		run("UnmarshalTWKB(NoValidate)", func() (geom.Geometry, bool, error) {
 			g, err := geom.UnmarshalTWKB(cp(), geom.NoValidate{})
-			if err == nil {
-				reencode(g)
-			}
 			return g, false, err
 		})
 		run("UnmarshalTWKBSize", func() (geom.Geometry, bool, error) {
@@ -193,18 +194,12 @@ func c08Exec(format byte, in []byte) c08Result {
 		run("UnmarshalWKT", func() (geom.Geometry, bool, error) { g, err := geom.UnmarshalWKT(string(in)); return g, true, err })
 		run("UnmarshalWKT(NoValidate)", func() (geom.Geometry, bool, error) {
 			g, err := geom.UnmarshalWKT(string(in), geom.NoValidate{})
-			if err == nil {
-				reencode(g)
-			}
 			return g, false, err
 		})
 	case fmtGeoJSON, fmtFeature:
 		run("UnmarshalGeoJSON", func() (geom.Geometry, bool, error) { g, err := geom.UnmarshalGeoJSON(cp()); return g, true, err })
 		run("UnmarshalGeoJSON(NoValidate)", func() (geom.Geometry, bool, error) {
 			g, err := geom.UnmarshalGeoJSON(cp(), geom.NoValidate{})
-			if err == nil {
-				reencode(g)
-			}
 			return g, false, err
 		})
 		run("Geometry.UnmarshalJSON", func() (geom.Geometry, bool, error) {
@@ -733,7 +728,7 @@ func c08Corpus() []geom.Geometry {
 
 func c08Main(r *engine.Run) {
 	r.Level = "fault_enumeration"
-	r.Rule = "corpus of valid encodings (WKB little/big endian, TWKB with header subsets, WKT, GeoJSON, Feature, FeatureCollection of ~70 geometries covering 7 types × 4 coordinate types × empty/1/2 members/nested) × fault operators: every truncation, every single-byte substitution (all 256 values at order/type/count/header positions, boundary values elsewhere), every 4-byte count := {0,1,2^31-1,2^31,2^32-1,...} in both byte orders, varints 2^k / 2^64-1 / over-long spliced at every position, every token deleted / duplicated / replaced by each vocabulary token, every prefix; WKT templates with every control point scaled by every value of {1,3e-200,3e200,1e308} (magnitude mixtures); plus all byte strings of length ≤ 2 and all strings of length 3..L over {00,01,02,07,10,ff}. Each case runs in a sacrificial process (RLIMIT_AS 4 GiB) through every entry point of its format; oracle: no panic, no process death, TotalAlloc ≤ 1 MiB + 512·len, returned geometries valid and re-encodable. non-trivial = distinct mutated inputs that some entry point still accepts; outcomes = distinct (format, per-entry-point outcome) tuples"
+	r.Rule = "corpus of valid encodings (WKB little/big endian, TWKB with header subsets, WKT, GeoJSON, Feature, FeatureCollection of ~70 geometries covering 7 types × 4 coordinate types × empty/1/2 members/nested) × fault operators: every truncation, every single-byte substitution (all 256 values at order/type/count/header positions, boundary values elsewhere), every 4-byte count := {0,1,2^31-1,2^31,2^32-1,...} in both byte orders, varints 2^k / 2^64-1 / over-long spliced at every position, every token deleted / duplicated / replaced by each vocabulary token, every prefix; WKT templates with every control point scaled by every value of {1,3e-200,3e200,1e308} (magnitude mixtures); GeometryCollections nested 16 / 256 / 2000 (thorough 7000) deep in every format, and WKB levels each claiming remaining/5 members; plus all byte strings of length ≤ 2 and all strings of length 3..L over {00,01,02,07,10,ff}. Each case runs in a sacrificial process (RLIMIT_AS 4 GiB) through every entry point of its format; oracle: no panic, no process death, TotalAlloc ≤ 1 MiB + 512·len, returned geometries valid and re-encodable. non-trivial = distinct mutated inputs that some entry point still accepts; outcomes = distinct (format, per-entry-point outcome) tuples"
 	corpus := c08Corpus()
 	r.States.Add(int64(len(corpus)))
 	var cases []faultCase
@@ -832,6 +827,7 @@ func c08Main(r *engine.Run) {
 		}
 	}
 	r.Extra["grammar_geojson_members"] = len(members)
+	r.Extra["nesting_cases"] = nestingFaults(r.Thorough(), &cases)
 	nmix := magnitudeMixtures(r.Thorough(), &cases)
 	r.Extra["magnitude_mixture_cases"] = nmix
 	shortInputs(fmtWKB, maxShort, &cases)
@@ -855,6 +851,86 @@ func c08Main(r *engine.Run) {
 	if runFaults(r, cases) {
 		r.Bound(fmt.Sprintf("%d distinct fault cases over a corpus of %d geometries (token edits ≤ %d, arbitrary strings up to length %d)", len(cases), len(corpus), edits, maxShort))
 	}
+}
+
+// nestingFaults: GeometryCollections nested d deep in every format (innermost: an empty collection,
+// a point, or nothing at all — truncated), and for WKB the variant in which every level claims
+// as many members as its remaining input could hold. Decoding must stay within the allocation
+// bound: nesting must not make cost quadratic in the input, and counts must not be pre-allocated
+// level after level.
+func nestingFaults(thorough bool, out *[]faultCase) int {
+	depths := []int{16, 256, 2000}
+	if thorough {
+		depths = append(depths, 7000)
+	}
+	n := 0
+	add := func(f byte, b []byte, o string) {
+		*out = append(*out, faultCase{f, b, o})
+		n++
+	}
+	le32 := func(v uint32) []byte { return []byte{byte(v), byte(v >> 8), byte(v >> 16), byte(v >> 24)} }
+	for _, d := range depths {
+		for _, inner := range []string{"emptyGC", "point", "truncated"} {
+			o := fmt.Sprintf("nesting depth %d, innermost %s", d, inner)
+			// WKB little endian: 01 07000000 01000000 per level
+			var wkb []byte
+			for i := 0; i < d; i++ {
+				wkb = append(wkb, 1, 7, 0, 0, 0, 1, 0, 0, 0)
+			}
+			switch inner {
+			case "emptyGC":
+				wkb = append(wkb, 1, 7, 0, 0, 0, 0, 0, 0, 0)
+			case "point":
+				wkb = append(wkb, 1, 1, 0, 0, 0)
+				wkb = append(wkb, make([]byte, 16)...)
+			}
+			add(fmtWKB, wkb, "WKB "+o)
+			// TWKB: type 7 precision 0, no metadata flags, count 1 per level
+			var tw []byte
+			for i := 0; i < d; i++ {
+				tw = append(tw, 0x07, 0x00, 0x01)
+			}
+			switch inner {
+			case "emptyGC":
+				tw = append(tw, 0x07, 0x10)
+			case "point":
+				tw = append(tw, 0x01, 0x00, 0x02, 0x04)
+			}
+			add(fmtTWKB, tw, "TWKB "+o)
+			// WKT
+			wkt := strings.Repeat("GEOMETRYCOLLECTION(", d)
+			switch inner {
+			case "emptyGC":
+				wkt += "GEOMETRYCOLLECTION EMPTY" + strings.Repeat(")", d)
+			case "point":
+				wkt += "POINT(1 2)" + strings.Repeat(")", d)
+			}
+			add(fmtWKT, []byte(wkt), "WKT "+o)
+			// GeoJSON
+			gj := strings.Repeat(`{"type":"GeometryCollection","geometries":[`, d)
+			switch inner {
+			case "emptyGC":
+				gj += `{"type":"GeometryCollection","geometries":[]}` + strings.Repeat("]}", d)
+			case "point":
+				gj += `{"type":"Point","coordinates":[1,2]}` + strings.Repeat("]}", d)
+			}
+			add(fmtGeoJSON, []byte(gj), "GeoJSON "+o)
+		}
+		// WKB count amplification: level k claims floor(remaining/5) members
+		total := 9 * d
+		var amp []byte
+		for i := 0; i < d; i++ {
+			rem := total - 9*(i+1)
+			c := uint32(rem / 5)
+			if c == 0 {
+				c = 1
+			}
+			amp = append(amp, 1, 7, 0, 0, 0)
+			amp = append(amp, le32(c)...)
+		}
+		add(fmtWKB, amp, fmt.Sprintf("WKB nesting depth %d, every level claiming remaining/5 members", d))
+	}
+	return n
 }
 
 // magnitudeMixtures: WKT of small lineal and areal templates in which every control point's X
